@@ -388,6 +388,10 @@ def check(rec, kind, idx, rng, tier):
     if g2.dtype.kind == 'f' and rng.random() < 0.4:
         m = rng.random((H, W)) < 0.1
         g2[m] = np.nan
+    if g2.dtype.kind == 'f' and rng.random() < 0.3:
+        # infinite cells (saturated sensors, 1/0 friction) are values like any other: walkable unless listed as barriers
+        m = rng.random((H, W)) < 0.15
+        g2[m] = rng.choice([np.inf, -np.inf], size=g2.shape)[m]; rec.cls('maze.infinite_cells')
     ok = ~np.isin(g2.astype('float64'), barrier_vals) & ~np.isnan(g2.astype('float64'))
     geom = dict(cx=float(rng.choice([1.0, 0.1, 1 / 3, 2.5, 30.0, 0.7])), cy=float(rng.choice([1.0, 0.1, 1 / 3, 2.5, 30.0, 0.7])),
                 x0=float(rng.choice([0.0, 10.0, -7.5, 100.25])), y0=float(rng.choice([0.0, 5.0, -3.25, 1000.5])),
